@@ -88,7 +88,7 @@ namespace worlds
                 ",\"velocity models\":[{\"model\":\"uniform raw\",\"velocity\":[0.06,-0.01,0.002]}]}");
     f.push_back("{\"model\":\"plume\",\"name\":\"PL\",\"min depth\":2e4,\"max depth\":6e5,\"coordinates\":[" + P(-2,2) + "," + P(-2.2,2.1) + "," + P(-2.5,2.5) + "]"
                 ",\"cross section depths\":[1e5,2e5,4e5],\"semi-major axis\":[" + num(1.2*s) + "," + num(0.8*s) + "," + num(1.0*s) + "]"
-                ",\"eccentricity\":[0.3,0.5,0.0],\"rotation angles\":[" + num(std::fmod(350 + o.plume_azimuth_shift + 720, 360.0)) + "," + num(std::fmod(10 + o.plume_azimuth_shift + 720, 360.0)) + "," + num(std::fmod(40 + o.plume_azimuth_shift + 720, 360.0)) + "]"
+                ",\"eccentricity\":[0.3,0.5,0.0],\"rotation angles\":[" + num(std::fmod(350 + o.plume_azimuth_shift + 720, 360.0)) + "," + num(std::fmod((o.variant == 1 ? 60 : 10) + o.plume_azimuth_shift + 720, 360.0)) + "," + num(std::fmod((o.variant == 1 ? 20 : 40) + o.plume_azimuth_shift + 720, 360.0)) + "]"
                 ",\"temperature models\":[{\"model\":\"gaussian\",\"operation\":\"add\",\"centerline temperatures\":[150,250],\"gaussian sigmas\":[0.3,0.4],\"depths\":[5e4,5e5]}]"
                 ",\"composition models\":[{\"model\":\"uniform\",\"compositions\":[3]}]"
                 ",\"grains models\":[" + uniform_grains("[0,1]", 2, 35) + "]"
